@@ -380,25 +380,32 @@ class StreamableHTTPTransport(Transport):
                 line = line.rstrip("\r")
 
                 if not line:
-                    # Empty line marks end of event
-                    if current_event and event_data:
+                    # Empty line marks end of event (event type defaults to "message")
+                    if event_data:
                         await self._process_sse_event(
-                            current_event, event_data, message_id
+                            current_event or "message", event_data, message_id
                         )
                     current_event = None
                     event_data = []
                     continue
 
-                # Parse SSE format
-                if line.startswith("event: "):
-                    current_event = line[7:].strip()
-                elif line.startswith("data: "):
-                    data = line[6:]  # Keep formatting
-                    event_data.append(data)
+                # Parse SSE format ("field:value", optional single space after
+                # the colon, lines starting with ":" are comments)
+                if line.startswith(":"):
+                    continue
+                field, _, value = line.partition(":")
+                if value.startswith(" "):
+                    value = value[1:]
+                if field == "event":
+                    current_event = value.strip()
+                elif field == "data":
+                    event_data.append(value)  # Keep formatting
 
             # Process any remaining event
-            if current_event and event_data:
-                await self._process_sse_event(current_event, event_data, message_id)
+            if event_data:
+                await self._process_sse_event(
+                    current_event or "message", event_data, message_id
+                )
 
         except Exception as e:
             logger.error(f"Error processing SSE text: {e}")
